@@ -111,6 +111,19 @@ func TestC07(t *testing.T) {
 			if (serr != nil) != (gerr != nil) || (serr == nil && c07Enc(st) != c07Enc(got)) {
 				note("twice", fmt.Sprintf("%s t=%s\n   got %s (%v)\n   want %s (%v)", in, c07Enc(tbl), c07Enc(got), gerr, c07Enc(st), serr))
 			}
+			// read by the three branches of a UNION chain, and by a branch in parentheses that brings the WITH itself
+			total++
+			st, serr = c07Run(map[string]any{"c": c07Clone(inner)}, "SELECT a FROM c UNION ALL SELECT a FROM c UNION ALL SELECT a FROM c")
+			got, gerr = c07Run(c07Clone(doc).(map[string]any), "WITH c AS ("+in+") SELECT a FROM c UNION ALL SELECT a FROM c UNION ALL SELECT a FROM c")
+			if (serr != nil) != (gerr != nil) || (serr == nil && c07Enc(st) != c07Enc(got)) {
+				note("three branches", fmt.Sprintf("%s t=%s\n   got %s (%v)\n   want %s (%v)", in, c07Enc(tbl), c07Enc(got), gerr, c07Enc(st), serr))
+			}
+			total++
+			st, serr = c07Run(map[string]any{"c": c07Clone(inner), "t": c07Clone(doc["t"])}, "SELECT a FROM c UNION ALL SELECT a FROM t")
+			got, gerr = c07Run(c07Clone(doc).(map[string]any), "(WITH c AS ("+in+") SELECT a FROM c) UNION ALL SELECT a FROM t")
+			if (serr != nil) != (gerr != nil) || (serr == nil && c07Enc(st) != c07Enc(got)) {
+				note("branch with its own WITH", fmt.Sprintf("%s t=%s\n   got %s (%v)\n   want %s (%v)", in, c07Enc(tbl), c07Enc(got), gerr, c07Enc(st), serr))
+			}
 			// path selector through the CTE
 			total++
 			st, serr = c07Run(map[string]any{"c": c07Clone(inner)}, "SELECT * FROM `c[(0:1)]`")
@@ -242,6 +255,6 @@ func TestC07(t *testing.T) {
 		}
 	}
 	r.Cases = total
-	r.Bound = fmt.Sprintf("%d tables of 0..3 rows over a in {1,2,3}, b in {x,y}; 7 inner queries (projection, filter, order, arithmetic, group/aggregate, limit, distinct) x 6 outer queries (star, filter, group/count, two-key order, window, sum) composed as CTE, derived table and two-stage CTE chain, plus a CTE read twice (UNION ALL) and through a slice selector; 25 documents with nested arrays x 4 subqueries in the select list, IN, correlated EXISTS, EXISTS over nested rows with a column named like an outer one, and `<-` navigation, each compared with the standalone run on the row / the document", len(tables))
+	r.Bound = fmt.Sprintf("%d tables of 0..3 rows over a in {1,2,3}, b in {x,y}; 7 inner queries (projection, filter, order, arithmetic, group/aggregate, limit, distinct) x 6 outer queries (star, filter, group/count, two-key order, window, sum) composed as CTE, derived table and two-stage CTE chain, plus a CTE read twice and three times (UNION ALL chains), a UNION branch in parentheses with a WITH of its own, and a CTE read through a slice selector; 25 documents with nested arrays x 4 subqueries in the select list, IN, correlated EXISTS, EXISTS over nested rows with a column named like an outer one, and `<-` navigation, each compared with the standalone run on the row / the document", len(tables))
 	report(t, r)
 }
